@@ -11,6 +11,8 @@ import (
 	"math/big"
 	"net"
 	"strings"
+	"sync"
+	"time"
 
 	"github.com/gocql/gocql"
 	"gocqlverif/hlib"
@@ -39,6 +41,12 @@ func rackName(i int) string {
 }
 
 func (h *hostT) coq() string { return fmt.Sprintf("(H %d %d %d %d)", h.id, h.addr, h.dc, h.rack) }
+func (h *hostT) String() string {
+	if h == nil {
+		return "<nil>"
+	}
+	return fmt.Sprintf("h%d", h.id)
+}
 
 func coqHosts(hs []*hostT) string {
 	ss := make([]string, len(hs))
@@ -48,10 +56,18 @@ func coqHosts(hs []*hostT) string {
 	return "[" + strings.Join(ss, ";") + "]"
 }
 
+func names(hs []*hostT) string {
+	ss := make([]string, len(hs))
+	for i, h := range hs {
+		ss[i] = h.String()
+	}
+	return "[" + strings.Join(ss, " ") + "]"
+}
+
 type polCfg struct {
-	kind               int // 0 round-robin, 1 DC-aware, 2 rack-aware
-	ldc, lrack         int
-	ta, shuffle, nlrf  bool
+	kind              int // 0 round-robin, 1 DC-aware, 2 rack-aware
+	ldc, lrack        int
+	ta, shuffle, nlrf bool
 }
 
 func (c polCfg) ntiers() int { return c.kind + 1 }
@@ -88,7 +104,8 @@ func (c polCfg) coq() string {
 }
 
 func (c polCfg) String() string {
-	return fmt.Sprintf("kind=%d localDC=%q localRack=%q tokenAware=%v shuffle=%v nonLocalFallback=%v", c.kind, dcName(c.ldc), rackName(c.lrack), c.ta, c.shuffle, c.nlrf)
+	return fmt.Sprintf("kind=%s localDC=%q localRack=%q tokenAware=%v shuffle=%v nonLocalFallback=%v",
+		[]string{"round-robin", "dc-aware", "rack-aware"}[c.kind], dcName(c.ldc), rackName(c.lrack), c.ta, c.shuffle, c.nlrf)
 }
 
 func (c polCfg) build() gocql.HostSelectionPolicy {
@@ -104,8 +121,6 @@ func (c polCfg) build() gocql.HostSelectionPolicy {
 	if !c.ta {
 		return fb
 	}
-	var opts []func(*gocql.TokenAwareHostPolicy)
-	_ = opts
 	switch {
 	case c.shuffle && c.nlrf:
 		return gocql.TokenAwareHostPolicy(fb, gocql.ShuffleReplicas(), gocql.NonLocalReplicasFallback())
@@ -115,4 +130,1137 @@ func (c polCfg) build() gocql.HostSelectionPolicy {
 		return gocql.TokenAwareHostPolicy(fb, gocql.NonLocalReplicasFallback())
 	}
 	return gocql.TokenAwareHostPolicy(fb)
+}
+
+// ---- one history ----------------------------------------------------------------------------------
+
+const (
+	findGap   = "ta-tier-gap-remote-replica-late"
+	findDup   = "ta-duplicate-replica-offered-twice"
+	findEmpty = "ta-empty-ring-nil-deref"
+)
+
+type iterT struct {
+	n        int
+	next     gocql.NextHost
+	rrType   bool // a plain round-robin generator (no token-aware phases)
+	haveHT   bool
+	reps     []*hostT // the replica list the generator walks, in its order (nil entry = nil primary)
+	nilPrim  bool
+	offered  []*hostT
+	calls    int
+	done     bool
+	panicked bool
+	quiet    bool // nothing else happened between Pick and exhaustion
+	pickSeq  int
+	lists    [][]*hostT // mirror lists at Pick
+	inScope  bool       // counter far from 2^63
+}
+
+type pend struct{ kind, finding, detail string }
+
+type scen struct {
+	r       *hlib.Rng
+	cfg     polCfg
+	pool    []*hostT
+	byInfo  map[*gocql.HostInfo]*hostT
+	pol     gocql.HostSelectionPolicy
+	mirror  [][]*hostT // spec side: per tier, hosts added and not removed, in insertion order
+	taHosts []*hostT   // ring membership of the token-aware policy (for avoiding C10's panics)
+	partOK  bool       // a supported partitioner is installed
+	part    string
+	ks      string
+	strat   string
+	rf      map[int]int // NetworkTopologyStrategy: dc -> rf
+	evs     []string
+	open    []*iterT
+	nIter   int
+	pickSeq int
+	lastRR  *iterT
+	viol    []pend
+	maxOff  int
+	stats   map[string]int
+	aborted bool // a policy operation panicked: its mutex may be held, nothing more can be done
+}
+
+func (s *scen) ev(f string, a ...interface{}) { s.evs = append(s.evs, fmt.Sprintf(f, a...)) }
+
+func (s *scen) violate(kind, finding, detail string) {
+	s.viol = append(s.viol, pend{kind, finding, detail})
+}
+
+func (s *scen) disturb() {
+	for _, it := range s.open {
+		it.quiet = false
+	}
+	s.lastRR = nil
+}
+
+func sameHost(a, b *hostT) bool { return a == b || a.addr == b.addr }
+
+func addTo(l []*hostT, h *hostT) []*hostT {
+	for _, x := range l {
+		if sameHost(x, h) {
+			return l
+		}
+	}
+	out := append([]*hostT(nil), l...)
+	return append(out, h)
+}
+
+func removeFrom(l []*hostT, addr int) []*hostT {
+	var out []*hostT
+	for _, x := range l {
+		if x.addr != addr {
+			out = append(out, x)
+		}
+	}
+	return out
+}
+
+// would networkTopology.replicaMap panic on this ring (C10's finding, not ours)?
+func (s *scen) ringPanics(hosts []*hostT) bool {
+	if !s.cfg.ta || !s.partOK || s.strat != "NetworkTopologyStrategy" {
+		return false
+	}
+	dcs := map[int]bool{}
+	skipped := false
+	for _, h := range hosts {
+		dcs[h.dc] = true
+		if len(h.tokens) > 0 && s.rf[h.dc] == 0 {
+			skipped = true
+		}
+	}
+	with := 0
+	for _, rf := range s.rf {
+		if rf > 0 {
+			with++
+		}
+	}
+	return skipped && with == len(dcs)
+}
+
+func (s *scen) op(kind int, h *hostT) {
+	t := s.cfg.tier(h)
+	switch kind {
+	case 0, 1: // AddHost, RemoveHost: also change the token-aware ring
+		var nh []*hostT
+		if kind == 0 {
+			nh = addTo(s.taHosts, h)
+		} else {
+			nh = removeFrom(s.taHosts, h.addr)
+		}
+		if s.ringPanics(nh) {
+			s.stats["op-skipped-c10-panic"]++
+			return
+		}
+		s.taHosts = nh
+	}
+	s.disturb()
+	defer func() {
+		if r := recover(); r != nil {
+			s.aborted = true
+			s.violate("panic", "", fmt.Sprintf("policy operation %d on %v panicked: %v", kind, h, r))
+		}
+	}()
+	switch kind {
+	case 0:
+		s.pol.AddHost(h.info)
+		s.mirror[t] = addTo(s.mirror[t], h)
+		s.ev("EL (LOp (OAdd %s))", h.coq())
+	case 1:
+		s.pol.RemoveHost(h.info)
+		s.mirror[t] = removeFrom(s.mirror[t], h.addr)
+		s.ev("EL (LOp (ORemove %s))", h.coq())
+	case 2:
+		s.pol.HostUp(h.info)
+		s.mirror[t] = addTo(s.mirror[t], h)
+		s.ev("EL (LOp (OUp %s))", h.coq())
+	case 3:
+		s.pol.HostDown(h.info)
+		s.mirror[t] = removeFrom(s.mirror[t], h.addr)
+		s.ev("EL (LOp (ODown %s))", h.coq())
+	}
+}
+
+// the states the hosts are created with
+func (s *scen) initialStates() {
+	for _, h := range s.pool {
+		st := int64(gocql.NodeDown)
+		if h.up {
+			st = int64(gocql.NodeUp)
+		}
+		s.ev("EL (LSetState %d %d)", h.id, st)
+	}
+}
+
+func (s *scen) setState(h *hostT, up bool) {
+	s.disturb()
+	gocql.VerifC11SetUp(h.info, up)
+	h.up = up
+	st := int64(gocql.NodeDown)
+	if up {
+		st = int64(gocql.NodeUp)
+	}
+	s.ev("EL (LSetState %d %d)", h.id, st)
+}
+
+func (s *scen) setCounter(v uint64) {
+	s.disturb()
+	for _, it := range s.open {
+		it.inScope = it.inScope && v < 1<<62
+	}
+	gocql.VerifC11SetCounter(s.pol, v)
+	s.ev("EL (LSetCtr %s)", hlib.ZU(v))
+}
+
+func (s *scen) readBack() {
+	ls := gocql.VerifC11Lists(s.pol)
+	var tiers []string
+	for t, l := range ls {
+		var ids []int64
+		for _, hi := range l {
+			if h := s.byInfo[hi]; h != nil {
+				ids = append(ids, int64(h.id))
+			} else {
+				ids = append(ids, -1)
+			}
+		}
+		tiers = append(tiers, hlib.ZListI(ids))
+		// spec: the list is exactly the hosts added and not removed, in insertion order, none twice
+		if t < len(s.mirror) {
+			ok := len(l) == len(s.mirror[t])
+			for i := 0; ok && i < len(l); i++ {
+				ok = l[i] == s.mirror[t][i].info
+			}
+			if !ok {
+				s.violate("tier-lists", "", fmt.Sprintf("tier %d holds %v, the hosts added and not removed are %s", t, tiers[len(tiers)-1], names(s.mirror[t])))
+			}
+		}
+	}
+	if len(ls) != s.cfg.ntiers() {
+		s.violate("tier-lists", "", fmt.Sprintf("%d tier lists for %s", len(ls), s.cfg))
+	}
+	s.ev("ELists [%s]", strings.Join(tiers, ";"))
+	s.ev("ECtr %s", hlib.ZU(gocql.VerifC11Counter(s.pol)))
+}
+
+func (s *scen) installRing(part string) {
+	if !s.cfg.ta {
+		return
+	}
+	ok := strings.HasSuffix(part, "Murmur3Partitioner") || strings.HasSuffix(part, "OrderedPartitioner") || strings.HasSuffix(part, "RandomPartitioner")
+	was := s.partOK
+	s.partOK = s.partOK || ok
+	if s.ringPanics(s.taHosts) {
+		s.partOK = was
+		s.stats["op-skipped-c10-panic"]++
+		return
+	}
+	s.disturb()
+	defer func() {
+		if r := recover(); r != nil {
+			s.aborted = true
+			s.violate("panic", "", fmt.Sprintf("SetPartitioner/KeyspaceChanged panicked: %v", r))
+		}
+	}()
+	s.pol.SetPartitioner(part)
+	s.pol.KeyspaceChanged(gocql.KeyspaceUpdateEvent{Keyspace: s.ks})
+}
+
+// Pick.  qk: 0 nil query, 1 query without routing key, 2 query with routing key [key] in keyspace [qks]
+func (s *scen) pick(qk int, key []byte, qks string) *iterT {
+	it := &iterT{n: s.nIter, quiet: true, rrType: true, pickSeq: s.pickSeq}
+	s.nIter++
+	s.pickSeq++
+	var qry gocql.ExecutableQuery
+	switch qk {
+	case 1:
+		qry = gocql.VerifC11Query(qks, nil, 1)
+	case 2:
+		qry = gocql.VerifC11Query(qks, key, 0)
+	}
+	q := "QFallback"
+	if s.cfg.ta && qk == 2 {
+		haveRing, reps, haveReps, prim := gocql.VerifC11Lookup(s.pol, qks, key)
+		if haveRing {
+			it.rrType = false
+			it.haveHT = haveReps
+			ht := "None"
+			order := "[]"
+			if haveReps {
+				var rl []*hostT
+				for _, hi := range reps {
+					rl = append(rl, s.byInfo[hi])
+				}
+				ht = hlib.Some(coqHosts(rl))
+				if s.cfg.shuffle {
+					seed := s.r.I64()
+					gocql.VerifC11SeedShuffle(seed)
+					sh := gocql.VerifC11Shuffle(reps)
+					gocql.VerifC11SeedShuffle(seed)
+					rl = rl[:0:0]
+					for _, hi := range sh {
+						rl = append(rl, s.byInfo[hi])
+					}
+				}
+				order = coqHosts(rl)
+				it.reps = rl
+			} else if prim != nil {
+				it.reps = []*hostT{s.byInfo[prim]}
+			} else {
+				it.nilPrim = true
+			}
+			pr := "None"
+			if prim != nil {
+				pr = hlib.Some(s.byInfo[prim].coq())
+			}
+			q = fmt.Sprintf("(QKey %s %s %s)", ht, pr, order)
+		}
+	}
+	for _, l := range s.mirror {
+		it.lists = append(it.lists, append([]*hostT(nil), l...))
+	}
+	c := gocql.VerifC11Counter(s.pol)
+	it.inScope = c < 1<<62
+	func() {
+		defer func() {
+			if r := recover(); r != nil {
+				s.violate("panic", "", fmt.Sprintf("Pick panicked: %v", r))
+			}
+		}()
+		it.next = s.pol.Pick(qry)
+	}()
+	s.ev("EL (LPick %d%%nat %s)", it.n, q)
+	if it.next == nil {
+		it.done = true
+		s.violate("nil-iterator", "", "Pick returned a nil NextHost")
+		return it
+	}
+	for _, o := range s.open {
+		o.quiet = false // its lazily created fallback generator would see a moved counter
+	}
+	s.open = append(s.open, it)
+	return it
+}
+
+func (s *scen) bound() int { return 2*len(s.pool) + 8 }
+
+// one call of the generator; returns false when it is exhausted (nil or panic)
+func (s *scen) callNext(it *iterT) bool {
+	if it.panicked {
+		return false
+	}
+	if it.pickSeq != s.pickSeq-1 {
+		s.lastRR = nil // an older generator may advance the counter (lazy fallback Pick)
+	}
+	it.calls++
+	var sel gocql.SelectedHost
+	var pv interface{}
+	func() {
+		defer func() { pv = recover() }()
+		sel = it.next()
+	}()
+	if pv != nil {
+		it.panicked, it.done = true, true
+		s.ev("ENext %d%%nat OPanic", it.n)
+		fid := ""
+		if s.cfg.ta && s.cfg.kind != 0 && it.nilPrim {
+			fid = findEmpty
+		}
+		if it.inScope {
+			s.violate("panic", fid, fmt.Sprintf("NextHost panicked at call %d: %v", it.calls, pv))
+		} else {
+			s.stats["panic-counter-beyond-2^62"]++
+		}
+		s.finish(it)
+		return false
+	}
+	if sel == nil {
+		s.ev("ENext %d%%nat ONil", it.n)
+		if !it.done {
+			it.done = true
+			s.finish(it)
+		}
+		return false
+	}
+	if it.done {
+		s.violate("not-finite", "", fmt.Sprintf("generator %d returned a host after it had returned nil", it.n))
+	}
+	hi := sel.Info()
+	h := s.byInfo[hi]
+	if h == nil {
+		s.ev("ENext %d%%nat (OHost (-1))", it.n)
+		s.violate("nil-host", "", "SelectedHost with nil or unknown HostInfo")
+		return true
+	}
+	s.ev("ENext %d%%nat (OHost %d)", it.n, h.id)
+	if !h.up || !hi.IsUp() {
+		s.violate("only-up", "", fmt.Sprintf("%v was offered while down (call %d of generator %d)", h, it.calls, it.n))
+	}
+	for _, x := range it.offered {
+		if x == h {
+			fid := ""
+			if s.hasDupReplica(it, h) {
+				fid = findDup
+			}
+			s.violate("no-dup", fid, fmt.Sprintf("%v offered twice by generator %d: %s then again", h, it.n, names(it.offered)))
+			break
+		}
+	}
+	it.offered = append(it.offered, h)
+	if len(it.offered) > s.maxOff {
+		s.maxOff = len(it.offered)
+	}
+	if it.calls > s.bound() {
+		s.violate("not-finite", "", fmt.Sprintf("generator %d still returns hosts after %d calls (%d hosts exist)", it.n, it.calls, len(s.pool)))
+		it.done = true
+		return false
+	}
+	return true
+}
+
+func (s *scen) hasDupReplica(it *iterT, h *hostT) bool {
+	n := 0
+	for _, r := range it.reps {
+		if r == h {
+			n++
+		}
+	}
+	return n >= 2
+}
+
+func (s *scen) drain(it *iterT) {
+	for s.callNext(it) {
+	}
+	if !it.panicked && s.r.Chance(30) {
+		s.callNext(it) // stays exhausted
+	}
+}
+
+func rot(l []*hostT, r int) []*hostT {
+	if len(l) == 0 {
+		return nil
+	}
+	r %= len(l)
+	return append(append([]*hostT(nil), l[r:]...), l[:r]...)
+}
+
+func eqHosts(a, b []*hostT) bool {
+	if len(a) != len(b) {
+		return false
+	}
+	for i := range a {
+		if a[i] != b[i] {
+			return false
+		}
+	}
+	return true
+}
+
+func samePerm(a, b []*hostT) bool {
+	if len(a) != len(b) {
+		return false
+	}
+	cnt := map[*hostT]int{}
+	for _, x := range a {
+		cnt[x]++
+	}
+	for _, x := range b {
+		cnt[x]--
+	}
+	for _, v := range cnt {
+		if v != 0 {
+			return false
+		}
+	}
+	return true
+}
+
+// seg must be: some rotation of list, restricted to hosts that are up and not in skip
+func rotationShaped(seg, list []*hostT, skip map[*hostT]bool) bool {
+	if len(list) == 0 {
+		return len(seg) == 0
+	}
+	for r := 0; r < len(list); r++ {
+		var w []*hostT
+		for _, h := range rot(list, r) {
+			if h.up && !skip[h] {
+				w = append(w, h)
+			}
+		}
+		if eqHosts(w, seg) {
+			return true
+		}
+	}
+	return false
+}
+
+// the static monitors: only for a generator that ran alone (nothing changed between Pick and nil)
+func (s *scen) finish(it *iterT) {
+	// remove from open
+	for i, o := range s.open {
+		if o == it {
+			s.open = append(append([]*iterT(nil), s.open[:i]...), s.open[i+1:]...)
+			break
+		}
+	}
+	if !it.quiet || it.panicked {
+		if !it.panicked {
+			s.stats["generators-interleaved"]++
+		}
+		return
+	}
+	s.stats["generators-quiet"]++
+	c := s.cfg
+	off := it.offered
+	inOff := map[*hostT]bool{}
+	for _, h := range off {
+		inOff[h] = true
+	}
+	// trigger regions of the known findings (computed from the input only)
+	gap, dup := false, false
+	if !it.rrType {
+		t1, t2 := false, false
+		seen := map[*hostT]bool{}
+		for _, h := range it.reps {
+			if seen[h] {
+				dup = true
+			}
+			seen[h] = true
+			switch c.tier(h) {
+			case 1:
+				t1 = true
+			case 2:
+				t2 = true
+			}
+		}
+		gap = c.kind == 2 && c.nlrf && t2 && !t1
+	}
+	repeat := false
+	{
+		seen := map[*hostT]bool{}
+		for _, h := range off {
+			if seen[h] {
+				repeat = true
+			}
+			seen[h] = true
+		}
+	}
+	// which known finding (if any) explains a violation of this kind on this input:
+	// duplicate replicas explain anything that goes wrong once a host has actually been offered twice;
+	// the tier gap explains a far replica missing from the replica prefix or from the whole sequence
+	fidFor := func(kind string) string {
+		if dup && repeat {
+			return findDup
+		}
+		if gap && (kind == "replica-order" || kind == "complete") {
+			return findGap
+		}
+		return ""
+	}
+	// complete: every up host the policy knows is offered
+	for t, l := range it.lists {
+		for _, h := range l {
+			if h.up && !inOff[h] {
+				s.violate("complete", "", fmt.Sprintf("%v (tier %d, up) was never offered: %s", h, t, names(off)))
+			}
+		}
+	}
+	skip := map[*hostT]bool{}
+	rest := off
+	if !it.rrType {
+		// replicas first: local up replicas in replica order (any order when shuffling), then - with
+		// non-local fallback - the up replicas of farther tiers, nearest tier first
+		var want []*hostT
+		var segs [][]*hostT
+		seen := map[*hostT]bool{}
+		maxT := 0
+		if c.nlrf {
+			maxT = c.ntiers() - 1
+		}
+		for t := 0; t <= maxT; t++ {
+			var sg []*hostT
+			for _, h := range it.reps {
+				if c.tier(h) == t && h.up && !seen[h] {
+					seen[h] = true
+					sg = append(sg, h)
+				}
+			}
+			segs = append(segs, sg)
+			want = append(want, sg...)
+		}
+		for _, h := range want {
+			if !inOff[h] {
+				s.violate("complete", fidFor("complete"), fmt.Sprintf("replica %v (up) was never offered: %s", h, names(off)))
+			}
+		}
+		ok := len(off) >= len(want)
+		pos := 0
+		for _, sg := range segs {
+			if !ok {
+				break
+			}
+			got := off[pos : pos+len(sg)]
+			if c.shuffle && it.haveHT {
+				ok = samePerm(got, sg)
+			} else {
+				ok = eqHosts(got, sg)
+			}
+			pos += len(sg)
+		}
+		if !ok {
+			s.violate("replica-order", fidFor("replica-order"), fmt.Sprintf("replicas %s (tiers %v): expected the offered sequence to start with %s, got %s", names(it.reps), s.tiersOf(it.reps), names(want), names(off)))
+			return
+		}
+		for _, h := range want {
+			skip[h] = true
+		}
+		rest = off[len(want):]
+	}
+	// the remaining hosts: tier by tier, each tier a rotation of its list
+	pos := 0
+	for t, l := range it.lists {
+		n := 0
+		for _, h := range l {
+			if h.up && !skip[h] {
+				n++
+			}
+		}
+		if pos+n > len(rest) {
+			s.violate("tier-order", fidFor("tier-order"), fmt.Sprintf("tier %d: %d up hosts expected after position %d, sequence %s", t, n, pos, names(off)))
+			return
+		}
+		if !rotationShaped(rest[pos:pos+n], l, skip) {
+			s.violate("tier-order", fidFor("tier-order"), fmt.Sprintf("tier %d (%s): offered part %s is not a rotation of the tier's up hosts; whole sequence %s", t, names(l), names(rest[pos:pos+n]), names(off)))
+			return
+		}
+		pos += n
+	}
+	if pos != len(rest) {
+		s.violate("tier-order", fidFor("tier-order"), fmt.Sprintf("unexpected extra hosts at the end: %s", names(off)))
+		return
+	}
+	// rotation: the next pick starts every tier one host further
+	if it.rrType && it.inScope {
+		if p := s.lastRR; p != nil && p.pickSeq+1 == it.pickSeq {
+			same := len(p.lists) == len(it.lists)
+			allUp := true
+			for t := 0; same && t < len(p.lists); t++ {
+				same = eqHosts(p.lists[t], it.lists[t])
+				for _, h := range it.lists[t] {
+					allUp = allUp && h.up
+				}
+			}
+			if same && allUp {
+				s.stats["rotation-checked"]++
+				a, b := p.offered, it.offered
+				pos := 0
+				for t, l := range it.lists {
+					n := len(l)
+					if n > 0 && pos+n <= len(a) && pos+n <= len(b) && !eqHosts(rot(a[pos:pos+n], 1), b[pos:pos+n]) {
+						s.violate("rotation", "", fmt.Sprintf("tier %d: pick k offered %s, pick k+1 offered %s (expected the same rotated by one)", t, names(a[pos:pos+n]), names(b[pos:pos+n])))
+					}
+					pos += n
+				}
+			}
+		}
+		s.lastRR = it
+	}
+}
+
+func (s *scen) tiersOf(hs []*hostT) []int {
+	out := make([]int, len(hs))
+	for i, h := range hs {
+		out[i] = s.cfg.tier(h)
+	}
+	return out
+}
+
+// ---- generators -------------------------------------------------------------------------------------
+
+type shape struct {
+	nHosts, nDC, nRack int
+	vnodes             int  // max tokens per host
+	upPct              int  // percentage of hosts up
+	dupAddr            bool // malformed: two HostInfo objects with one address
+	noTokens           bool // malformed: hosts without tokens
+	part               string
+	strat              string
+	rfMax              int
+	dynamic            bool // interleave operations with open generators
+	counters           bool // exercise counter boundaries
+	steps              int
+}
+
+func randToken(r *hlib.Rng, part string, used map[string]bool) string {
+	for {
+		var t string
+		switch {
+		case strings.HasSuffix(part, "OrderedPartitioner"):
+			t = fmt.Sprintf("%02d", r.Intn(100))
+		case strings.HasSuffix(part, "RandomPartitioner"):
+			b := new(big.Int).SetBytes(r.Bytes(16))
+			b.Rsh(b, 1)
+			t = b.String()
+		default:
+			if r.Chance(10) {
+				t = fmt.Sprint(r.Pick(-1<<63, 1<<63-1, 0, -1, 1))
+			} else {
+				t = fmt.Sprint(r.I64())
+			}
+		}
+		if !used[t] {
+			used[t] = true
+			return t
+		}
+	}
+}
+
+func (s *scen) randKey() []byte {
+	r := s.r
+	if strings.HasSuffix(s.part, "OrderedPartitioner") {
+		return []byte(fmt.Sprintf("%02d", r.Intn(101)))
+	}
+	if r.Chance(5) {
+		return []byte{}
+	}
+	return r.Bytes(1 + r.Intn(12))
+}
+
+func newScen(r *hlib.Rng, cfg polCfg, sh shape, stats map[string]int) *scen {
+	s := &scen{r: r, cfg: cfg, byInfo: map[*gocql.HostInfo]*hostT{}, ks: "ks", stats: stats, part: sh.part, strat: sh.strat, rf: map[int]int{}}
+	s.mirror = make([][]*hostT, cfg.ntiers())
+	usedTok := map[string]bool{}
+	for i := 0; i < sh.nHosts; i++ {
+		h := &hostT{id: i + 1, addr: i + 1, dc: 1 + r.Intn(sh.nDC), rack: 1 + r.Intn(sh.nRack), up: r.Chance(sh.upPct)}
+		if r.Chance(3) {
+			h.dc = 0 // a host whose data centre is unknown ("")
+		}
+		if sh.dupAddr && i > 0 && r.Chance(25) {
+			h.addr = 1 + r.Intn(i)
+		}
+		if !sh.noTokens || r.Chance(30) {
+			nt := 1
+			if sh.vnodes > 1 {
+				nt = 1 + r.Intn(sh.vnodes)
+			}
+			for k := 0; k < nt; k++ {
+				h.tokens = append(h.tokens, randToken(r, sh.part, usedTok))
+			}
+		}
+		h.info = gocql.VerifC11Host(fmt.Sprintf("host-%d", h.id), net.IPv4(10, 0, byte(h.addr>>8), byte(h.addr)), dcName(h.dc), rackName(h.rack), h.tokens, h.up)
+		s.byInfo[h.info] = h
+		s.pool = append(s.pool, h)
+	}
+	s.initialStates()
+	s.pol = cfg.build()
+	if cfg.ta {
+		opts := map[string]interface{}{}
+		switch sh.strat {
+		case "SimpleStrategy":
+			opts["replication_factor"] = 1 + r.Intn(sh.rfMax)
+		case "NetworkTopologyStrategy":
+			for d := 0; d <= sh.nDC; d++ {
+				rf := 1 + r.Intn(sh.rfMax)
+				if r.Chance(12) {
+					rf = 0
+				}
+				s.rf[d] = rf
+				if r.Bool() {
+					opts[dcName(d)] = rf
+				} else {
+					opts[dcName(d)] = fmt.Sprint(rf)
+				}
+			}
+		}
+		gocql.VerifC11InitTokenAware(s.pol, s.ks, sh.strat, opts)
+	}
+	return s
+}
+
+func (s *scen) randHost() *hostT {
+	if len(s.pool) == 0 {
+		return nil
+	}
+	return s.pool[s.r.Intn(len(s.pool))]
+}
+
+func (s *scen) randPick() *iterT {
+	r := s.r
+	qk := 2
+	if !s.cfg.ta {
+		qk = r.Intn(3)
+	} else if r.Chance(15) {
+		qk = r.Intn(2)
+	}
+	qks := s.ks
+	if r.Chance(5) {
+		qks = "other"
+	}
+	return s.pick(qk, s.randKey(), qks)
+}
+
+func (s *scen) run(sh shape) {
+	r := s.r
+	// bring the cluster up: hosts first, then the partitioner (the order a session uses), or mixed
+	partAt := len(s.pool)
+	if r.Chance(25) {
+		partAt = r.Intn(len(s.pool) + 1)
+	}
+	for i, h := range s.pool {
+		if s.aborted {
+			return
+		}
+		if i == partAt {
+			s.installRing(sh.part)
+		}
+		if r.Chance(10) {
+			continue // never added
+		}
+		if r.Chance(85) {
+			s.op(0, h)
+		} else {
+			s.op(2, h)
+		}
+	}
+	if partAt >= len(s.pool) {
+		s.installRing(sh.part)
+	}
+	if s.aborted {
+		return
+	}
+	s.readBack()
+	for step := 0; step < sh.steps && !s.aborted; step++ {
+		x := r.Intn(100)
+		switch {
+		case x < 40: // a burst of 1..5 successive picks, each drained alone
+			n := 1 + r.Intn(5)
+			for k := 0; k < n; k++ {
+				s.drain(s.randPick())
+			}
+		case x < 55 && sh.dynamic: // open a generator, take a few hosts, leave it open
+			it := s.randPick()
+			for k := r.Intn(4); k > 0 && s.callNext(it); k-- {
+			}
+		case x < 70 && sh.dynamic && len(s.open) > 0: // continue an open generator
+			it := s.open[r.Intn(len(s.open))]
+			if r.Bool() {
+				s.drain(it)
+			} else {
+				s.callNext(it)
+			}
+		case x < 80:
+			if h := s.randHost(); h != nil {
+				s.setState(h, !h.up)
+			}
+		case x < 94:
+			if h := s.randHost(); h != nil {
+				s.op(r.Intn(4), h)
+				if r.Chance(30) {
+					s.readBack()
+				}
+			}
+		case x < 97 && sh.counters:
+			cv := []uint64{0, 1, 1<<31 - 1, 1 << 31, 1<<32 - 1, 1 << 32, 1<<62 - 1, 1 << 62, 1<<63 - 4, 1<<63 - 3, 1<<63 - 2, 1<<63 - 1, 1 << 63, 1<<63 + 1, 1<<64 - 3, 1<<64 - 2, 1<<64 - 1}
+			s.setCounter(cv[r.Intn(len(cv))])
+			s.readBack()
+		default:
+			s.readBack()
+		}
+	}
+	if s.aborted {
+		return
+	}
+	for len(s.open) > 0 {
+		s.drain(s.open[0])
+	}
+	s.readBack()
+}
+
+func randCfg(r *hlib.Rng, nDC, nRack int, search bool) polCfg {
+	c := polCfg{kind: r.Intn(3)}
+	if search && r.Chance(50) {
+		c.kind = 2
+	}
+	c.ldc = 1 + r.Intn(nDC)
+	if r.Chance(5) {
+		c.ldc = nDC + 1 // a local data centre no host is in
+	}
+	c.lrack = 1 + r.Intn(nRack)
+	c.ta = r.Chance(65)
+	if c.ta {
+		c.shuffle = r.Chance(35)
+		c.nlrf = r.Chance(50)
+	}
+	return c
+}
+
+func randShape(r *hlib.Rng, search bool) shape {
+	sh := shape{nHosts: 1 + r.Intn(12), nDC: 1 + r.Intn(3), nRack: 1 + r.Intn(3), vnodes: 1, upPct: 80, rfMax: 3, steps: 6 + r.Intn(10)}
+	if search {
+		sh.nHosts = 2 + r.Intn(15)
+		sh.steps = 12 + r.Intn(20)
+	}
+	switch r.Intn(8) {
+	case 0:
+		sh.nHosts = r.Intn(3)
+	case 1:
+		sh.nHosts = 12 + r.Intn(5)
+	}
+	switch r.Intn(6) {
+	case 0:
+		sh.upPct = 100
+	case 1:
+		sh.upPct = 30
+	case 2:
+		sh.upPct = r.Intn(101)
+	}
+	if r.Chance(30) {
+		sh.vnodes = 2 + r.Intn(3)
+	}
+	sh.part = []string{"Murmur3Partitioner", "org.apache.cassandra.dht.Murmur3Partitioner", "OrderedPartitioner", "OrderedPartitioner", "RandomPartitioner"}[r.Intn(5)]
+	sh.strat = []string{"SimpleStrategy", "SimpleStrategy", "NetworkTopologyStrategy", "NetworkTopologyStrategy", "NetworkTopologyStrategy"}[r.Intn(5)]
+	sh.dynamic = r.Chance(45)
+	sh.counters = r.Chance(15)
+	return sh
+}
+
+func malformShape(r *hlib.Rng, sh shape) shape {
+	switch r.Intn(6) {
+	case 0:
+		sh.dupAddr = true
+	case 1:
+		sh.noTokens = true
+	case 2:
+		sh.part = "ByteOrderedPartitionerX" // unsupported: no ring is ever installed
+	case 3:
+		sh.strat = "" // keyspace metadata lookup fails: no replica map, primary owner only
+	case 4:
+		sh.strat = "LocalStrategy"
+	case 5:
+		sh.nHosts = 0
+	}
+	return sh
+}
+
+func emit(o *hlib.Out, kind string, s *scen) {
+	nontriv := s.maxOff >= 2
+	idx := o.Case(kind, nontriv, fmt.Sprintf("Case %s [%s]", s.cfg.coq(), strings.Join(s.evs, "; ")))
+	for _, v := range s.viol {
+		o.Violate(idx, v.kind, v.finding, v.detail+" | policy: "+s.cfg.String(), s.describe())
+	}
+}
+
+func (s *scen) describe() interface{} {
+	var hs []string
+	for _, h := range s.pool {
+		hs = append(hs, fmt.Sprintf("h%d addr=%d dc=%q rack=%q tokens=%v", h.id, h.addr, dcName(h.dc), rackName(h.rack), h.tokens))
+	}
+	return map[string]interface{}{"policy": s.cfg.String(), "hosts": hs, "partitioner": s.part, "strategy": s.strat, "rf": fmt.Sprint(s.rf), "events": len(s.evs)}
+}
+
+// the systematic stream: a fixed five-host topology (tiers 0,0,1,2,2 for the rack-aware policy), every
+// placement of the ring start, replication factor, up-mask and option combination (sampled in the quick tier)
+func systematic(o *hlib.Out, stats map[string]int) {
+	r := o.Rng
+	type topo struct{ dc, rack int }
+	tp := []topo{{1, 1}, {1, 1}, {1, 2}, {2, 1}, {2, 2}}
+	total, taken := 0, 0
+	for kind := 0; kind < 3; kind++ {
+		for opt := 0; opt < 4; opt++ { // shuffle x nlrf
+			for rfv := 1; rfv <= 3; rfv++ {
+				for perm := 0; perm < 6; perm++ {
+					for mask := 0; mask < 32; mask++ {
+						total++
+						// the quick tier takes a seeded 1-in-9 sample of the space, the thorough tier all of it
+						keep := o.Tier == "thorough" || o.Search || r.Intn(9) == 0
+						if !keep {
+							continue
+						}
+						taken++
+						cfg := polCfg{kind: kind, ldc: 1, lrack: 1, ta: true, shuffle: opt&1 == 1, nlrf: opt&2 == 2}
+						s := &scen{r: r, cfg: cfg, byInfo: map[*gocql.HostInfo]*hostT{}, ks: "ks", stats: stats, part: "OrderedPartitioner", strat: "SimpleStrategy", rf: map[int]int{}}
+						s.mirror = make([][]*hostT, cfg.ntiers())
+						// ring order: rotate / interleave the five hosts so that replica sets of every tier mix occur
+						order := [][]int{{0, 1, 2, 3, 4}, {3, 0, 4, 1, 2}, {2, 3, 0, 4, 1}, {4, 3, 2, 1, 0}, {0, 3, 1, 4, 2}, {3, 4, 0, 1, 2}}[perm]
+						for i := 0; i < 5; i++ {
+							h := &hostT{id: i + 1, addr: i + 1, dc: tp[i].dc, rack: tp[i].rack, up: mask>>uint(i)&1 == 1}
+							for pos, who := range order {
+								if who == i {
+									h.tokens = []string{fmt.Sprintf("%02d", 10*(pos+1))}
+								}
+							}
+							h.info = gocql.VerifC11Host(fmt.Sprintf("host-%d", h.id), net.IPv4(10, 0, 0, byte(h.addr)), dcName(h.dc), rackName(h.rack), h.tokens, h.up)
+							s.byInfo[h.info] = h
+							s.pool = append(s.pool, h)
+						}
+						s.initialStates()
+						s.pol = cfg.build()
+						gocql.VerifC11InitTokenAware(s.pol, s.ks, "SimpleStrategy", map[string]interface{}{"replication_factor": rfv})
+						for _, h := range s.pool {
+							s.op(0, h)
+						}
+						s.installRing("OrderedPartitioner")
+						for k := 0; k < 5; k++ {
+							s.drain(s.pick(2, []byte(fmt.Sprintf("%02d", 10*k+5)), s.ks))
+						}
+						s.readBack()
+						emit(o, "systematic-5-hosts", s)
+					}
+				}
+			}
+		}
+	}
+	o.Extra["systematic_space"] = total
+	o.Extra["systematic_taken"] = taken
+	o.Extra["exhaustive"] = taken == total
+}
+
+// real concurrency (goroutines, no scheduler control): mutators add/remove/mark hosts while pickers Pick and
+// walk generators.  Only schedule-independent monitors are evaluated: no panic, no nil host, no host twice
+// in one generator, bounded length.  SimpleStrategy (no duplicate replicas) and four hosts that are never
+// removed (the ring always has tokens) keep the run outside the known findings.
+func soak(o *hlib.Out, stats map[string]int) {
+	nOps, nPicks := 400*o.Scale, 250*o.Scale
+	for variant := 0; variant < 6; variant++ {
+		cfg := polCfg{kind: variant % 3, ldc: 1, lrack: 1, ta: true, shuffle: variant >= 3, nlrf: variant%2 == 0}
+		pol := cfg.build()
+		gocql.VerifC11InitTokenAware(pol, "ks", "SimpleStrategy", map[string]interface{}{"replication_factor": 3})
+		var pool []*gocql.HostInfo
+		for i := 0; i < 10; i++ {
+			h := gocql.VerifC11Host(fmt.Sprintf("host-%d", i+1), net.IPv4(10, 0, 0, byte(i+1)), dcName(1+i%2), rackName(1+(i/2)%2),
+				[]string{fmt.Sprint(int64(i)*1844674407370955161 - 9000000000000000000)}, true)
+			pool = append(pool, h)
+			pol.AddHost(h)
+		}
+		pol.SetPartitioner("Murmur3Partitioner")
+		pol.KeyspaceChanged(gocql.KeyspaceUpdateEvent{Keyspace: "ks"})
+		var mu sync.Mutex
+		var wg sync.WaitGroup
+		report := func(kind, detail string) {
+			mu.Lock()
+			o.Violate(-1, kind, "", detail+" | concurrent soak, policy: "+cfg.String(), nil)
+			mu.Unlock()
+		}
+		for g := 0; g < 2; g++ {
+			wg.Add(1)
+			go func(g int) {
+				defer wg.Done()
+				defer func() {
+					if r := recover(); r != nil {
+						report("panic", fmt.Sprintf("policy operation panicked under concurrency: %v", r))
+					}
+				}()
+				r := hlib.NewRng(o.Seed*1000 + uint64(variant*10+g))
+				for i := 0; i < nOps; i++ {
+					h := pool[4+r.Intn(len(pool)-4)]
+					switch r.Intn(6) {
+					case 0:
+						pol.AddHost(h)
+					case 1:
+						pol.RemoveHost(h)
+					case 2:
+						pol.HostUp(h)
+					case 3:
+						pol.HostDown(h)
+					default:
+						gocql.VerifC11SetUp(pool[r.Intn(len(pool))], r.Bool())
+					}
+				}
+			}(g)
+		}
+		for g := 0; g < 3; g++ {
+			wg.Add(1)
+			go func(g int) {
+				defer wg.Done()
+				r := hlib.NewRng(o.Seed*1000 + uint64(variant*10+5+g))
+				for i := 0; i < nPicks; i++ {
+					var qry gocql.ExecutableQuery
+					if r.Chance(85) {
+						qry = gocql.VerifC11Query("ks", r.Bytes(1+r.Intn(8)), 0)
+					}
+					func() {
+						defer func() {
+							if rv := recover(); rv != nil {
+								report("panic", fmt.Sprintf("Pick/NextHost panicked under concurrency: %v", rv))
+							}
+						}()
+						it := pol.Pick(qry)
+						seen := map[*gocql.HostInfo]bool{}
+						for n := 0; ; n++ {
+							sel := it()
+							if sel == nil {
+								break
+							}
+							hi := sel.Info()
+							if hi == nil {
+								report("nil-host", "SelectedHost with nil HostInfo")
+								break
+							}
+							if seen[hi] {
+								report("no-dup", fmt.Sprintf("%s offered twice by one generator", hi.HostID()))
+								break
+							}
+							seen[hi] = true
+							if n > 3*len(pool) {
+								report("not-finite", "generator did not end")
+								break
+							}
+						}
+					}()
+				}
+			}(g)
+		}
+		done := make(chan struct{})
+		go func() { wg.Wait(); close(done) }()
+		select {
+		case <-done:
+		case <-time.After(120 * time.Second): // generous: a run takes well under a second; only guards "never returns"
+			report("hang", "concurrent soak did not finish: a goroutine is blocked for ever (a mutex left locked?)")
+			return
+		}
+		stats["soak-picks"] += 3 * nPicks
+		stats["soak-ops"] += 2 * nOps
+	}
+}
+
+func main() {
+	o := hlib.Init("C11")
+	r := o.Rng
+	o.Rule = "one case = one history on one policy (0..16 hosts, 1..3 data centres, 1..3 racks, 1..4 tokens per host, any up/down assignment; round-robin / DC-aware / rack-aware, " +
+		"token-aware off/on x shuffle x non-local fallback; nil query / no routing key / routing key; bursts of 1..5 successive picks; optional interleaving of open generators with " +
+		"AddHost/RemoveHost/HostUp/HostDown/state changes; counter boundaries); distinct = distinct Coq case term; non-trivial = some generator of the history offered at least two hosts"
+	stats := map[string]int{}
+
+	systematic(o, stats)
+
+	n := 700 * o.Scale
+	for i := 0; i < n; i++ {
+		sh := randShape(r, o.Search)
+		kind := "random-history"
+		if i%7 == 6 {
+			sh = malformShape(r, sh)
+			kind = "malformed"
+		} else if sh.dynamic {
+			kind = "random-history-interleaved"
+		}
+		cfg := randCfg(r, sh.nDC, sh.nRack, o.Search)
+		s := newScen(r, cfg, sh, stats)
+		s.run(sh)
+		emit(o, kind, s)
+	}
+	unexplained := 0
+	for _, v := range o.Violations {
+		if v.Finding == "" {
+			unexplained++
+		}
+	}
+	if unexplained == 0 { // otherwise the check already fails, and a broken policy may have left a mutex locked
+		soak(o, stats)
+	}
+	for k, v := range stats {
+		o.Extra[k] = v
+	}
+	o.Finish("From GocqlV Require Import Lib.Base C11.Model C11.Corr.", "C11.Corr.case", "C11.Corr.run")
 }
